@@ -13,6 +13,7 @@ from vlib import arch
 from vlib.runner import Check, Outcome
 
 import py7zr
+from py7zr.callbacks import ExtractCallback
 from py7zr.io import BytesIOFactory
 
 _bases = {}
@@ -20,7 +21,7 @@ _bases = {}
 
 def base_names():
     return ["ref:" + n for n in sorted(S.ref_specs(True))] + ["py:" + n for n in sorted(S.PY_SEEDS)] + ["py2:py-copy-raw", "py2:py-default", "py3:py-lzma-raw",
-                                                                                                         "py2:py-zstd"]
+                                                                                                         "py2:py-zstd", "py40:py-copy-raw"]
 
 
 def get_base(name):
@@ -36,8 +37,12 @@ def get_base(name):
         regions = list(b.regions)
         data = b.data
     else:
-        sessions = {"py": 1, "py2": 2, "py3": 3}[kind]
-        data, model, pw = S.build_py(n, sessions=sessions, small=True)
+        sessions = {"py": 1, "py2": 2, "py3": 3, "py40": 40}[kind]
+        if kind == "py40":
+            # forty folders (one per append session): more workers than any batch or pool size a library is likely to use
+            data, model, pw = S.build_py(n, members=[("m%02d" % i, ("payload-%02d;" % i).encode() * 2) for i in range(40)], sessions=40)
+        else:
+            data, model, pw = S.build_py(n, sessions=sessions, small=True)
         links = set()
         off, size = struct.unpack("<QQ", data[12:28])
         regions = [(0, 32, "sig"), (32, 32 + off, "data"), (32 + off, 32 + off + size, "nextheader")]
@@ -102,12 +107,35 @@ def apply_fault(data, f):
     raise ValueError(k)
 
 
-def read_factory(data, pw, path=None, mp=False):
+class _QuietCallback(ExtractCallback):
+    def report_start_preparation(self):
+        pass
+
+    def report_start(self, processing_file_path, processing_bytes):
+        pass
+
+    def report_update(self, decompressed_bytes):
+        pass
+
+    def report_end(self, processing_file_path, wrote_bytes):
+        pass
+
+    def report_warning(self, message):
+        pass
+
+    def report_postprocess(self):
+        pass
+
+
+def read_factory(data, pw, path=None, mp=False, callback=False):
     src = path if path else io.BytesIO(data)
     with py7zr.SevenZipFile(src, "r", password=pw, mp=mp) as z:
         names = z.getnames()
         fac = BytesIOFactory(arch.BIG)
-        z.extractall(factory=fac)
+        if callback:
+            z.extractall(factory=fac, callback=_QuietCallback())
+        else:
+            z.extractall(factory=fac)
         got = {}
         for k, v in fac.products.items():
             v.seek(0)
@@ -121,10 +149,10 @@ class C04(Check):
     technique = "exhaustive single-bit flips of ~34 small base archives + every truncation length + sampled byte/burst/insert/delete/extend/block-swap faults; member-by-member comparison with the pristine model; test()/testzip() consistency"
     rule = ("base archives (~250-380 bytes): reference-written (every codec family, BCJ/Delta, AES data and AES header with 2^3 KDF rounds, 2-3 "
             "folders, packed CRCs, folder-level CRC only, a symlink/empty/dir mix) and py7zr-written (default, Copy/LZMA raw header, BZip2, "
-            "ZStandard, Deflate, PPMd, AES, AES header, Copy+AES; 2-3 folders by append). Faults: every single-bit flip of every base "
+            "ZStandard, Deflate, PPMd, AES, AES header, Copy+AES; 2-3 folders by append; one archive of 40 folders). Faults: every single-bit flip of every base "
             "(quick: every third bit of the py7zr-written bases), every truncation length, Hypothesis-sampled byte overwrite / burst <= 32 bits / "
             "insert / delete / extend / 16-byte block swap in the packed area. Each image is read four ways on fresh objects: (a) "
-            "getnames+extractall(factory) from a stream, (b) extractall(path) by file name, (c) test(), (d) testzip(); multi-folder bases "
+            "getnames+extractall(factory) from a stream - plain and with a progress callback attached -, (b) extractall(path) by file name, (c) test(), (d) testzip(); multi-folder bases "
             "also with mp=True. Violation: a call returns normally and delivers a name not in the original or bytes differing from the "
             "original under that name; or testzip() is None / test() is True while (a) on the same image raised or differed. Non-trivial: "
             "image differs from the base (always) and the fault lies in a classified region; distinct by (base, fault kind, position).")
@@ -155,7 +183,22 @@ class C04(Check):
 
     def enumerated(self, env):
         i = 0
+        # the 40-folder archive first and only at one bit per packed stream (plus the header region): it is the size that matters
+        name = "py40:py-copy-raw"
+        data = get_base(name)[0]
+        off, size = struct.unpack("<QQ", data[12:28])
+        per = max(1, off // 40)
+        for k in range(40):
+            i += 1
+            if env.mine(i):
+                yield {"base": name, "fault": {"k": "flip", "bit": (32 + k * per + per // 2) * 8 + (k % 8)}}
+        for bit in range((32 + off) * 8, len(data) * 8, 37):
+            i += 1
+            if env.mine(i):
+                yield {"base": name, "fault": {"k": "flip", "bit": bit}}
         for name in base_names():
+            if name.startswith("py40"):
+                continue
             data = get_base(name)[0]
             # intact base first
             i += 1
@@ -191,7 +234,7 @@ class C04(Check):
         out = Outcome()
         name = case["base"]
         data, model, links, pw, regions = get_base(name)
-        multi = name.startswith(("py2", "py3")) or "multi" in name
+        multi = name.startswith(("py2", "py3", "py40")) or "multi" in name or "packpos" in name
         if case["fault"] is None:
             D, pos = data, 0
             region = "none"
@@ -220,7 +263,7 @@ class C04(Check):
                 out.sample = {"base": name, "fault": case["fault"], "byte": pos, "region": region}
                 return out
             # (a) stream + factory
-            a_ok, a_wrong = False, None
+            a_ok, a_wrong, a_exc = False, None, None
             try:
                 names, got = read_factory(D, pw)
                 a_ok = True
@@ -230,6 +273,14 @@ class C04(Check):
                 a_exc = type(e).__name__
             if a_ok:
                 out.label("a:returns-" + ("wrong" if a_wrong else "right"))
+            # (a') the same with a progress callback attached: an error must not get lost on the way past the reporter
+            try:
+                names_c, got_c = read_factory(D, pw, callback=True)
+                self._judge(out, sig0, "factory-callback", names_c, got_c, model, links)
+                if not a_ok:
+                    out.violate(dict(sig0, kind="callback-extraction-succeeds-where-plain-extraction-raises"), observed={"plain": a_exc}, expected="the same error")
+            except Exception:
+                pass
             # (b) by path to disk
             dest = os.path.join(work, "out")
             try:
